@@ -25,6 +25,11 @@ def main():
             import io
             import contextlib
             buf = io.StringIO()
+            try:
+                from harness.common import Vals
+                Vals.default_layout = (c.get("cfg") or {}).get("mem_layout")
+            except Exception:
+                pass
             with contextlib.redirect_stdout(buf):
                 r = h.replay(c["cfg"], c["label"], env, c)
             out.append(r)
